@@ -108,6 +108,22 @@ class PoolClass:
     """A plain (non-SymPy) class used as attribute value."""
 
 
+def make_closure(power):
+    """Factory of phase-space-factor-like callables: DISTINCT function objects that share module and
+    qualname (`make_closure.<locals>.rho`).  Equality of attributes is equality of Python objects."""
+    def rho(s, m1, m2):
+        return (s - (m1 + m2) ** 2) ** sp.Rational(power, 2) / s
+    return rho
+
+
+CLOSURE_A = make_closure(1)
+CLOSURE_B = make_closure(3)
+LAMBDA_A = (lambda s, m1, m2: sp.sqrt(s) * m1, lambda s, m1, m2: s * sp.sqrt(m2))
+# objects that have no importable qualified name of their own: IR name -> object
+NAMED = {"uneval_ir.CLOSURE_A": CLOSURE_A, "uneval_ir.CLOSURE_B": CLOSURE_B,
+         "uneval_ir.LAMBDA_A[0]": LAMBDA_A[0], "uneval_ir.LAMBDA_A[1]": LAMBDA_A[1]}
+
+
 class Marker:
     def __init__(self, j):
         self.j = j
@@ -128,6 +144,11 @@ def attr_ir(v):
         return ("c", qual(v))
     if isinstance(v, Marker):
         return ("m", v.j)
+    if isinstance(v, sp.Basic):
+        return ("e", to_ir(v))   # a SymPy object in a sympify=False field (e.g. phsp_factor=sp.Lambda(...))
+    for name, o in NAMED.items():
+        if o is v:
+            return ("o", name)
     try:
         hash(v)
     except TypeError:
@@ -160,6 +181,10 @@ def attr_py(a):
         return None
     if k == "s":
         return a[1]
+    if k == "e":
+        return from_ir(a[1])
+    if k == "o" and a[1] in NAMED:
+        return NAMED[a[1]]
     if k in "co":
         return _import_obj(a[1])
     if k == "u":
@@ -228,7 +253,7 @@ def from_ir(t):
         if h.startswith("fn:"):
             return sp.Function(h[3:])(*args)
         if h.startswith("call:"):
-            return _import_obj(h[5:])(*args)
+            return (NAMED[h[5:]] if h[5:] in NAMED else _import_obj(h[5:]))(*args)
         if h.startswith("py:"):
             raise ModelError(h)
         return _import_obj(h)(*args)
@@ -261,6 +286,33 @@ class Undecided(Exception):
     pass
 
 
+class TimeLimit(BaseException):
+    pass
+
+
+class time_limit:
+    """with time_limit(s): ... raises TimeLimit inside the block after s seconds; the timer keeps firing
+    every 50 ms until the block is left (SymPy/mpmath swallow a single exception in bare excepts)."""
+
+    def __init__(self, seconds):
+        self.s = seconds
+
+    def __enter__(self):
+        import signal
+
+        def _al(*_):
+            raise TimeLimit
+
+        signal.signal(signal.SIGALRM, _al)
+        signal.setitimer(signal.ITIMER_REAL, self.s, 0.05)
+
+    def __exit__(self, *exc):
+        import signal
+
+        signal.setitimer(signal.ITIMER_REAL, 0)
+        return False
+
+
 def same(a, b, limit=6) -> bool:
     """Equality modulo SymPy's own normalisation: rebuild both sides bottom-up; if they still differ
     (sign extraction / number distribution depend on construction history) compare after sp.expand."""
@@ -270,15 +322,11 @@ def same(a, b, limit=6) -> bool:
     if a1 == b1:
         return True
 
-    def _al(*_):
-        raise Undecided
-
-    signal.signal(signal.SIGALRM, _al)
-    signal.alarm(limit)
     try:
-        return sp.expand(a1) == sp.expand(b1)
-    finally:
-        signal.alarm(0)
+        with time_limit(limit):
+            return sp.expand(a1) == sp.expand(b1)
+    except TimeLimit:
+        raise Undecided from None
 
 
 def numeric_equal(a, b, limit=8):
@@ -290,12 +338,8 @@ def numeric_equal(a, b, limit=8):
     syms = sorted((a.free_symbols | b.free_symbols), key=str)
     rng = np.random.default_rng(11)
 
-    def _al(*_):
-        raise Undecided
-
-    signal.signal(signal.SIGALRM, _al)
-    signal.alarm(limit)
     try:
+      with time_limit(limit):
         for _ in range(3):
             pt = {s: sp.Rational(int(rng.integers(11, 97)), int(rng.integers(7, 23))) for s in syms}
             x = complex(a.xreplace(pt).doit().evalf(30))
@@ -306,12 +350,10 @@ def numeric_equal(a, b, limit=8):
             if abs(x - y) > 1e-9 * max(1.0, abs(x)):
                 return False
         return True
-    except Undecided:
+    except TimeLimit:
         return None
     except Exception:  # noqa: BLE001
         return None
-    finally:
-        signal.alarm(0)
 
 
 def canon_dummies(e):
@@ -341,6 +383,8 @@ def attr_coq(a):
     k = a[0]
     if k == "n":
         return "ANone"
+    if k == "e":
+        raise IRError("SymPy object in a non-SymPy field: outside the Coq model (search harness only)")
     return {"s": "AStr", "c": "ACls", "o": "AObj", "u": "AUnh"}[k] + " " + cstr(a[1])
 
 
